@@ -78,6 +78,23 @@ def holdsC15 : OpTable
         ++ clause (!(ks.beq (Nodes.ofList (kidsOf args))) || !ident) "consolidate_spec:children"
         ++ clause (!same) "consolidate_rebuild"))
     else throw s!"bad consolidate answer {t}"
+  | "consolidate_args" => some do
+    -- children are arbitrary values: "raises iff building the tag raises" (C15_consolidate_error) is exercised
+    let targs ← listOf tagArgA; let kw ← listOf attrPair
+    expect "|"
+    let pairs := (dictsOf targs).flatten ++ kw
+    let kidsBad := match kidsCheck (kidsOf targs) with | .ok _ => false | .error _ => true
+    let t ← next
+    if t == "err" then
+      let k ← next
+      pure (verdict (clause (!(k == "typeError" && (anyBad pairs || kidsBad))) "consolidate_error"))
+    else if t == "ok" then
+      let a ← listOf attr; let ks ← Wire.args; let same ← bool; let ident ← bool
+      pure (verdict (clause (anyBad pairs || kidsBad) "consolidate_error:accepted-what-Tag-rejects"
+        ++ clause (a != mergeSpec cfg pairs) "consolidate_spec:attrs"
+        ++ clause (!(ks.beq (Args.ofList (kidsOf targs))) || !ident) "consolidate_spec:children"
+        ++ clause (!same) "consolidate_rebuild"))
+    else throw s!"bad consolidate answer {t}"
   | "attr_render" => some do
     let ds ← listOf (listOf attrPair); let kw ← listOf attrPair
     let pairs := ds.flatten ++ kw
